@@ -39,6 +39,13 @@ ELEMENTWISE_BIN = {
     "add": "+", "subtract": "-", "multiply": "*", "divide": "/", "true_divide": "/",
     "logical_and": "and", "logical_or": "or", "maximum": "maximum", "minimum": "minimum",
 }
+# library / operator-module spellings of Python operators: jnp.equal(a, b) is a == b, operator.mul(a, b) is a * b
+FUNC_AS_BINOP = {"add": "+", "subtract": "-", "sub": "-", "multiply": "*", "mul": "*", "divide": "/", "true_divide": "/",
+                 "truediv": "/", "power": "**", "pow": "**", "floor_divide": "//", "floordiv": "//", "mod": "%",
+                 "bitwise_and": "&", "and_": "&", "bitwise_or": "|", "or_": "|"}
+FUNC_AS_CMP = {"equal": "==", "eq": "==", "not_equal": "!=", "ne": "!=", "less": "<", "lt": "<", "less_equal": "<=", "le": "<=",
+               "greater": ">", "gt": ">", "greater_equal": ">=", "ge": ">="}
+FUNC_AS_UNOP = {"negative": "-", "neg": "-", "logical_not": "~", "invert": "~", "bitwise_not": "~", "inv": "~"}
 NS_PREFIXES = ("jax.numpy.", "numpy.", "jax.ops.", "jax.scipy.special.", "jax.lax.", "jax.nn.")
 METHODS = {
     "max", "min", "sum", "prod", "argmax", "argmin", "any", "all", "mean", "reshape", "transpose",
@@ -167,7 +174,9 @@ def _none_test(c):
 def _looks_like_list(t):
     """A `+` whose operands (recursively) include a list display or list(...): concatenation."""
     for side in (t[2], t[3]):
-        if side[0] == "list" or (side[0] == "call" and side[1] == ("glob", "builtins.list")):
+        if side[0] in ("list", "tuple") or (side[0] == "call" and side[1] in (("glob", "builtins.list"), ("glob", "builtins.tuple"))):
+            return True
+        if side[0] == "binop" and side[1] == "*" and _is_seq_display(side):
             return True
         if side[0] == "binop" and side[1] == "+" and _looks_like_list(side):
             return True
@@ -200,6 +209,22 @@ def _membership_base(x):
         x = y
 
 
+def identity_comp(t):
+    """{k: v for k, v in X} == dict(X);  [x for x in X] == list(X);  {x for x in X} == set(X)  (no filter)."""
+    if not (is_term(t) and t[0] == "comp" and len(t) == 4 and len(t[3]) == 1 and not t[3][0][2]):
+        return t
+    tg, it, _c = t[3][0]
+    if t[1] == "dict" and is_term(tg) and tg[0] == "tuple" and len(tg[1]) == 2 and t[2] == (tg[1][0], tg[1][1]):
+        return ("call", ("glob", "builtins.dict"), (it,), ())
+    if t[1] == "dict" and is_term(tg) and tg[0] == "tuple" and len(tg[1]) == 2 and t[2] == (tg[1][1], tg[1][0]) \
+            and is_term(it) and it[0] == "call" and it[1] == ("glob", "builtins.zip") and len(it[2]) == 2:
+        # the zip arguments were put into canonical order (deindex): {b: a for a, b in zip(A, B)} == dict(zip(B, A))
+        return ("call", ("glob", "builtins.dict"), (("call", it[1], (it[2][1], it[2][0]), it[3]),), ())
+    if t[1] in ("list", "set") and is_term(tg) and tg[0] == "bv" and t[2] == tg:
+        return ("call", ("glob", f"builtins.{t[1]}"), (it,), ())
+    return t
+
+
 def _chain_parts(x):
     """itertools.chain(a, b, ...) / chain.from_iterable([a, b, ...]) / chain.from_iterable(f(c) for c in (c1, c2, ...))
     -> [a, b, ...]: the sequences that are concatenated, in order (None if not of that shape)."""
@@ -217,6 +242,29 @@ def _chain_parts(x):
             if is_term(tg) and tg[0] == "bv" and it[0] in ("tuple", "list") and all(a[0] == "const" for a in it[1]):
                 return [_subst_terms(y[2], {tg: a}) for a in it[1]]
     return None
+
+
+SEQ_ARGS = {"shape", "axes", "axis", "reps", "newshape", "in_axes", "out_axes", "source", "destination"}
+
+
+def _seq_arg(n):
+    """A (normalised) argument that is read as a sequence of ints: list or tuple, built any way, is one form."""
+    if not is_term(n):
+        return n
+    if n[0] == "list":
+        return ("tuple", n[1])
+    if n[0] == "cat":
+        return ("call", ("glob", "builtins.tuple"), (n,), ())
+    if n[0] == "call" and n[1] == ("glob", "builtins.list") and len(n[2]) == 1 and not n[3]:
+        return ("call", ("glob", "builtins.tuple"), n[2], ())
+    if n[0] == "rep":
+        return ("call", ("glob", "builtins.tuple"), (("cat", (("seq", n),)),), ())
+    return n
+
+
+def _is_seq_display(t):
+    return is_term(t) and (t[0] in ("list", "tuple") or (t[0] == "binop" and t[1] == "*" and (_is_seq_display(t[2]) or _is_seq_display(t[3])))
+                           or (t[0] == "binop" and t[1] == "+" and _is_seq_display(t[2]) and _is_seq_display(t[3])))
 
 
 def _bar_parts(n):
@@ -242,11 +290,22 @@ def _mk_bar(parts):
     return ("bar", tuple(out))
 
 
+def _is_tuple_form(n):
+    return is_term(n) and (n[0] == "tuple" or (n[0] == "call" and n[1] == ("glob", "builtins.tuple") and len(n[2]) == 1 and not n[3]))
+
+
 def _cat_parts(n):
     if is_term(n) and n[0] == "cat":
         return list(n[1])
     if is_term(n) and n[0] == "list":
         return [n] if n[1] else []
+    if is_term(n) and n[0] == "tuple" and len(n) == 2 and all(x[0] != "star" for x in n[1]):
+        return [("list", n[1])] if n[1] else []
+    if is_term(n) and n[0] == "rep":
+        return [("seq", n)]
+    if is_term(n) and n[0] == "call" and n[1] == ("glob", "builtins.tuple") and len(n[2]) == 1 and not n[3]:
+        inner = _cat_parts(n[2][0])
+        return inner if inner is not None else [("seq", n[2][0])]
     if is_term(n) and n[0] == "call" and n[1] == ("glob", "builtins.list") and len(n[2]) == 1 and not n[3]:
         return [("seq", n[2][0])]
     return None
@@ -270,6 +329,16 @@ def _subst_terms(t, mapping):
     if is_term(t) and t in mapping:
         return mapping[t]
     return tuple(_subst_terms(x, mapping) if isinstance(x, tuple) else x for x in t)
+
+
+def _plus_const(e, i):
+    """k if e is `i + k` / `k + i` with an int constant k, else None."""
+    if is_term(e) and e[0] == "binop" and e[1] == "+":
+        if e[2] == i and e[3][0] == "const" and isinstance(e[3][1], int):
+            return e[3][1]
+        if e[3] == i and e[2][0] == "const" and isinstance(e[2][1], int):
+            return e[2][1]
+    return None
 
 
 def _range_len_of(it):
@@ -303,6 +372,69 @@ def _deindex1(t):
     if not (is_term(t) and t[0] == "comp" and len(t) == 4 and len(t[3]) == 1):
         return t
     tg, it, conds = t[3][0]
+    if (is_term(tg) and tg[0] == "tuple" and len(tg[1]) == 2 and is_term(tg[1][0]) and tg[1][0][0] == "bv"
+            and is_term(it) and it[0] == "call" and it[1] == ("glob", "builtins.enumerate") and it[2]
+            and (len(it[2]) == 2 or any(k == "start" for k, _ in it[3]))):
+        # enumerate(X, start=k) with i  ==  enumerate(X) with i + k
+        start = it[2][1] if len(it[2]) == 2 else dict(it[3])["start"]
+        i = tg[1][0]
+        m = {i: ("binop", "+", i, start)}
+        elt = tuple(_subst_terms(e, m) for e in t[2]) if t[1] == "dict" else _subst_terms(t[2], m)
+        return _deindex1(("comp", t[1], elt, ((tg, ("call", it[1], (it[2][0],), ()), _subst_terms(conds, m)),)))
+    if (is_term(tg) and tg[0] == "tuple" and len(tg[1]) == 2 and all(is_term(b) and b[0] == "bv" for b in tg[1])
+            and is_term(it) and it[0] == "call" and it[1] == ("glob", "builtins.enumerate") and len(it[2]) == 1 and not it[3]):
+        # for i, x in enumerate(X) using Y[i] / Y[i + k] only  ==  for x, y in zip(X, Y[k:])
+        i, x = tg[1]
+        seqs, ok = [], [True]
+
+        def scan2(u):
+            if not isinstance(u, tuple):
+                return
+            if is_term(u):
+                if u == i:
+                    ok[0] = False
+                    return
+                if u[0] == "sub" and i not in set(walk(u[1])):
+                    k = 0 if u[2] == i else _plus_const(u[2], i)
+                    if k is not None and k >= 0:
+                        if (u[1], k) not in seqs:
+                            seqs.append((u[1], k))
+                        scan2(u[1])
+                        return
+            for y in u:
+                scan2(y)
+
+        scan2((t[2], conds))
+        if ok[0] and seqs:
+            depth = i[1]
+            srcs = [it[2][0]] + [y if k == 0 else ("sub", y, ("slice", ("const", k), None, None)) for y, k in seqs]
+            bvs = tuple(("bv", depth, n) for n in range(len(srcs)))
+            m = {x: ("bv#", 0)}  # placeholder, replaced below (x may coincide with a new index)
+            mapping = {}
+            for (y, k), b in zip(seqs, bvs[1:], strict=True):
+                mapping[("sub", y, i) if k == 0 else None] = b
+            def rew(u):
+                if not isinstance(u, tuple):
+                    return u
+                if is_term(u):
+                    if u == x:
+                        return ("bvX",)
+                    if u[0] == "sub" and i not in set(walk(u[1])):
+                        k = 0 if u[2] == i else _plus_const(u[2], i)
+                        if k is not None and (u[1], k) in seqs:
+                            return ("bvY", seqs.index((u[1], k)))
+                return tuple(rew(y) for y in u)
+            def fin(u):
+                if not isinstance(u, tuple):
+                    return u
+                if u == ("bvX",):
+                    return bvs[0]
+                if len(u) == 2 and u[0] == "bvY":
+                    return bvs[1 + u[1]]
+                return tuple(fin(y) for y in u)
+            elt = fin(rew(t[2]))
+            cs = fin(rew(conds))
+            return _deindex1(("comp", t[1], elt, ((("tuple", bvs), ("call", ("glob", "builtins.zip"), tuple(srcs), ()), cs),)))
     body = (t[2], conds)
     if is_term(tg) and tg[0] == "bv":
         S = _range_len_of(it)
@@ -368,6 +500,15 @@ def norm(t, _arith=True):  # noqa: C901, PLR0911, PLR0912
         if t == ("glob", "jax.numpy.inf") or t == ("glob", "numpy.inf") or t == ("glob", "math.inf"):
             return POS_INF
         return t
+    if tag == "binop" and t[1] == "*" and _is_seq_display(t):
+        # [x] * n, (x,) * n: repetition of a display
+        seq, n = (t[2], t[3]) if _is_seq_display(t[2]) else (t[3], t[2])
+        ns = norm(seq)
+        is_tuple = ns[0] == "tuple" or (ns[0] == "call" and ns[1] == ("glob", "builtins.tuple"))
+        parts = _cat_parts(ns)
+        base = ("list", ns[1]) if ns[0] in ("list", "tuple") else ("cat", tuple(parts)) if parts is not None else ns
+        rep = ("rep", base, norm(n))
+        return ("call", ("glob", "builtins.tuple"), (("cat", (("seq", rep),)),), ()) if is_tuple else rep
     if _arith and is_arith(t) and not (t[0] == "binop" and t[1] == "+" and _looks_like_list(t)):
         p = poly(t)
         if p == {(): Fraction(-1)} and False:
@@ -435,7 +576,10 @@ def norm(t, _arith=True):  # noqa: C901, PLR0911, PLR0912
         if la is not None or lb is not None:
             la = la if la is not None else [("seq", na)]
             lb = lb if lb is not None else [("seq", nb)]
-            return _mk_cat(la + lb)
+            c = _mk_cat(la + lb)
+            if _is_tuple_form(na) or _is_tuple_form(nb):
+                return c if c[0] == "list" and False else ("call", ("glob", "builtins.tuple"), (c,), ()) if c[0] != "list" else ("tuple", c[1])
+            return c
     if tag in ("phi", "ifexp"):
         c = t[1]
         nt = _none_test(c)
@@ -466,6 +610,9 @@ def norm(t, _arith=True):  # noqa: C901, PLR0911, PLR0912
             if sel is not None:
                 return ("call", ("attr", norm(f[1]), "query"), (sel,), ())
         name = callee_name(t)
+        if name == "builtins.zip" and any(k == "strict" for k, _ in t[3]):
+            # whether a length mismatch raises or truncates is not part of the normal form (see deindex)
+            t = ("call", f, t[2], tuple((k, v) for k, v in t[3] if k != "strict"))
         if name == "builtins.list" and len(t[2]) == 1 and not t[3]:
             parts = _chain_parts(t[2][0])
             if parts is not None:
@@ -480,6 +627,13 @@ def norm(t, _arith=True):  # noqa: C901, PLR0911, PLR0912
         if f[0] == "attr" and f[2] in METHODS and name is None:
             op = f[2]
             pargs = [f[1], *pargs]
+        if op is not None and name is not None and not kws and not any(p[0] == "star" for p in pargs):
+            if op in FUNC_AS_BINOP and len(pargs) == 2:
+                return norm(("binop", FUNC_AS_BINOP[op], pargs[0], pargs[1]))
+            if op in FUNC_AS_CMP and len(pargs) == 2:
+                return norm(("cmp", (FUNC_AS_CMP[op],), (pargs[0], pargs[1])))
+            if op in FUNC_AS_UNOP and len(pargs) == 1:
+                return norm(("unop", FUNC_AS_UNOP[op], pargs[0]))
         if op is not None:
             if op in ELEMENTWISE_BIN and len(pargs) == 2 and not kws and ELEMENTWISE_BIN[op] in ("and", "or", "==", "maximum", "minimum"):
                 sym = ELEMENTWISE_BIN[op]
@@ -488,11 +642,15 @@ def norm(t, _arith=True):  # noqa: C901, PLR0911, PLR0912
             sig = SIGNATURES.get(op)
             named = {}
             rest = []
+            if sig is not None and op in ("reshape", "transpose") and pargs and pargs[0][0] != "star" \
+                    and (len(pargs) > 2 or any(p[0] == "star" for p in pargs[1:])):
+                # x.reshape(a, b, *rest): the dimensions given one by one
+                named["a"] = norm(pargs[0])
+                named[sig[1]] = norm(("tuple", tuple(pargs[1:])))
+                pargs = []
             if sig is not None and not any(p[0] == "star" for p in pargs):
-                if op in ("reshape", "transpose") and len(pargs) > 2:
-                    named["a"] = norm(pargs[0])
-                    named[sig[1]] = ("tuple", tuple(norm(x) for x in pargs[1:]))
-                    pargs = []
+                if False:
+                    pass
                 for i, p in enumerate(pargs):
                     if i < len(sig):
                         named[sig[i]] = norm(p)
@@ -519,8 +677,8 @@ def norm(t, _arith=True):  # noqa: C901, PLR0911, PLR0912
                 sh = named.get(sig[1])
                 if sh is not None and sh[0] == "tuple" and len(sh[1]) == 1 and sh[1][0][0] in ("tuple", "list"):
                     named[sig[1]] = ("tuple", sh[1][0][1])
-                if sh is not None and sh[0] == "list":
-                    named[sig[1]] = ("tuple", sh[1])
+            for k in SEQ_ARGS & set(named):
+                named[k] = _seq_arg(named[k])
             return ("op", op, tuple(sorted(named.items())), tuple(rest), tuple(sorted(splats, key=repr)))
         return ("call", norm(f), tuple(norm(p) for p in t[2]),
                 tuple((k, norm(v)) for k, v in t[3]))
@@ -539,6 +697,9 @@ def norm(t, _arith=True):  # noqa: C901, PLR0911, PLR0912
     if tag == "comp":
         t2 = _deindex1(t)
         if t2 != t:
+            return norm(t2)
+        t2 = identity_comp(t)
+        if t2 is not t:
             return norm(t2)
         gens = tuple((norm(tg), norm(_strip_keys(it)), tuple(norm(c) for c in conds)) for tg, it, conds in t[3])
         elt = (norm(t[2][0]), norm(t[2][1])) if t[1] == "dict" else norm(t[2])
@@ -696,6 +857,9 @@ def hoist(n, budget=None):
         for x in kids:
             if isinstance(x, tuple):
                 _tops_shallow(x, tops)
+        if tops and is_term(n) and (n[0] in _BINDERS or (n[0] == "op" and len(n) == 5 and n[1] == "count")):
+            # a condition on a variable bound here cannot move above its binder
+            tops = {k for k in tops if not _mentions_bound(k[1])}
         if not tops:
             return _rebuild(kids)
         k = min(tops, key=repr)
@@ -707,6 +871,16 @@ def hoist(n, budget=None):
         return go(n)
     except (_Budget, RecursionError):
         return n
+
+
+_BINDERS = {"comp", "fold", "fn", "lambda"}
+
+
+def _mentions_bound(c):
+    for x in walk(c):
+        if x[0] == "bv" or (x[0] in ("carried", "loopvar", "param") and isinstance(x[1], str) and x[1].startswith("#")):
+            return True
+    return False
 
 
 def _tops_shallow(x, out):
